@@ -431,8 +431,8 @@ theorem spec_messageGetFd {fid0 : Nat} {c0 : Bytes} (env : PEnv) (ms : MsgSt) (p
 
 /-! ## exec -/
 
-theorem spec_execP {fid0 : Nat} {c0 : Bytes} {w0 : World} (fdin : Option Handle) {w : World} (fr : Frm fid0 c0 w0 w) :
-    wpo (execP fdin) (fun _ w' => Frm fid0 c0 w0 w') w := by
+theorem spec_execP {fid0 : Nat} {c0 : Bytes} {w0 : World} (argv : List Bytes) (fdin : Option Handle) {w : World} (fr : Frm fid0 c0 w0 w) :
+    wpo (execP argv fdin) (fun _ w' => Frm fid0 c0 w0 w') w := by
   unfold execP
   simp only [bind_eq, pure_eq, call_bind]
   cases fdin with
